@@ -26,7 +26,7 @@ from hsim.worlds.client import ClientArrival, ClientWorld
 PROPERTY = "C19"
 CHUNK = {"quick": 40, "thorough": 100}
 WINDOW = 1000    # see ASSUMPTIONS
-PROBES = ["duplicate_beyond_window_unjudged", "window_filled", "retransmission_on_circuit_with_full_window", "retransmission_beyond_window_not_sent",
+PROBES = ["reopened_with_reliable_sends_pending", "duplicate_beyond_window_unjudged", "window_filled", "retransmission_on_circuit_with_full_window", "retransmission_beyond_window_not_sent",
           "reliable_duplicate_delivered", "unreliable_duplicate_delivered", "ack_appended_completes",
           "ack_packetack_completes", "ack_before_send_ignored", "bogus_ack_ignored", "budget_exhausted",
           "resend_emitted", "ack_after_resend", "ping_reliable_duplicate", "retransmission_with_resent_flag",
@@ -41,7 +41,8 @@ COMPONENTS = {
 }
 ASSUMPTIONS = [
     "fewer than 1000 distinct reliable IDs lie between a packet and its duplicate (dedupe window is bounded by design)",
-    "the circuit stays live for the whole run (no DisableSimulator / logout)",
+    "when the circuit is re-opened (HippoClientRegion.disconnect, then UseCircuitCode again) the reliable sends still "
+    "pending from its previous life carry no further obligation; nothing of them may be retransmitted on the new one",
     "resend cadence is not judged here (C05 judges it for the proxy); budget and completion are",
 ]
 
@@ -68,7 +69,12 @@ def gen_plan(rng: random.Random, tier: str) -> dict:
     # duplicate window before/while the interesting traffic flows
     flood_at = rng.randrange(0, max(1, n // 2)) if rng.random() < (0.12 if big else 0.04) else None
     flooded = False
+    reconnect_at = rng.randrange(1, max(2, n)) if rng.random() < 0.15 else None
     for i_ in range(n):
+        if i_ == reconnect_at:
+            # the simulator went away and the client re-opens the circuit (HippoClientRegion.disconnect / connect)
+            steps.append({"at": t, "op": "reconnect"})
+            t = round(t + 0.01, 4)
         if i_ == flood_at:
             steps.append({"at": t, "op": "flood", "n": rng.choice([900, 995, 999, 1000, 1001, 1040, 1500])})
             flooded = True
@@ -187,6 +193,7 @@ def run_plan(plan: dict) -> RunResult:
         unjudged_pings = set()
         client_sends: Dict[int, dict] = {}           # client pid -> {future, reliable, transmissions, body}
         last_first_pid = [-1]
+        old_lives: List[dict] = []
         expected_calls: Dict[Tuple[str, int], int] = {}
         expected_pongs: Dict[int, int] = {}
 
@@ -408,7 +415,23 @@ def run_plan(plan: dict) -> RunResult:
                         rec["failed_exc"] = type(exc).__name__
                 fut.add_done_callback(_done)
 
-        ops = {"ssend": op_ssend, "sresend": op_sresend, "sack": op_sack, "csend": op_csend, "flood": op_flood}
+        def op_reconnect(st):
+            res.fault("circuit_reopened")
+            if any(r_["reliable"] and r_["acked_at"] is None and r_["done_at"] is None and r_["future"] is not None
+                   and not r_["future"].done() for r_ in client_sends.values()):
+                res.probe("reopened_with_reliable_sends_pending")
+            region.disconnect()
+            # sends of the previous life of the circuit carry no further obligation (and no retransmission of them
+            # belongs on the new one); IDs start over
+            old_lives.append(dict(client_sends))
+            client_sends.clear()
+            last_first_pid[0] = -1
+            circuit.send_reliable(Message("UseCircuitCode", Block("CircuitCode", Code=session.circuit_code,
+                                                                 SessionID=session.id, ID=session.agent_id)))
+            circuit.is_alive = True
+
+        ops = {"ssend": op_ssend, "sresend": op_sresend, "sack": op_sack, "csend": op_csend, "flood": op_flood,
+               "reconnect": op_reconnect}
         for i, st in enumerate(plan["steps"]):
             def _run(i=i, st=st):
                 env.tr("step", i, st["op"])
